@@ -322,6 +322,9 @@ type Facts struct {
 	// AssumeMinLen gives lengths assumed for parameters at function entry
 	// (a precondition the caller of the analysis verifies at the call sites).
 	AssumeMinLen map[*types.Var]int
+	// AssumeMinLenOf lists expressions of the function (fields of its
+	// parameters, `pe.Op`) whose length is assumed to be at least one at entry
+	AssumeMinLenOf []ast.Expr
 	// UsedAxioms collects the names of the invariants that were needed.
 	UsedAxioms map[string]bool
 }
